@@ -14,7 +14,7 @@ pub const CONFIGS: &[(u32, u32)] =
 
 /// bounds bundle for generic executors
 pub trait Ws: 'static {
-    type W: WordOps + Into<Self::S> + AsPrimitive<Self::S> + Default + Send + Sync;
+    type W: WordOps + crate::chain::ChainWord + Into<Self::S> + AsPrimitive<Self::S> + Default + Send + Sync;
     type S: BitArray + AsPrimitive<Self::W> + AsPrimitive<u128> + From<Self::W> + Send + Sync;
     const WB: u32;
     const SB: u32;
